@@ -39,6 +39,9 @@ func keyErrStr(e *kvrpcpb.KeyError) string {
 func DescribeEntry(e *Entry) string {
 	var b strings.Builder
 	fmt.Fprintf(&b, "#%d c%d call=%d r%d %v ", e.Seq, e.Client, e.CallID, e.RegionID, e.Type)
+	if e.Retry {
+		b.WriteString("(retry) ")
+	}
 	switch r := e.Req.(type) {
 	case *kvrpcpb.PrewriteRequest:
 		fmt.Fprintf(&b, "start=%d primary=%s async=%v 1pc=%v minc=%d fu=%d ttl=%d secs=%q [", r.StartVersion, r.PrimaryLock, r.UseAsyncCommit, r.TryOnePc, r.MinCommitTs, r.ForUpdateTs, r.LockTtl, r.Secondaries)
